@@ -149,13 +149,47 @@ def _guarded(f, cap):
         return None, type(ex).__name__
 
 
+NOT_JUDGED = "not-judged-memory-cap"
+
+
 def _guarded_sure(f, cap, mult=8):
-    """Like _guarded, for calls whose failure would be reported as a violation: a CPU-cap trip is confirmed with
-    a @mult times larger cap (a non-terminating loop still trips it, a slow machine does not)."""
+    """Like _guarded, for calls whose failure would be reported as a violation.
+    * a CPU-cap trip is confirmed with a @mult times larger cap (a non-terminating loop still trips it, a slow
+      machine does not);
+    * a MemoryError under the worker's address-space cap depends on what the worker already holds, so it is no verdict
+      about the loader: the call is repeated after a collection with a 4 times larger address-space cap. Only if it
+      fails again is it "MemoryError"; otherwise the result is NOT used (a fresh process under the normal cap could go
+      either way) and the error is NOT_JUDGED, which never becomes a violation (see _judged)."""
     r, err = _guarded(f, cap)
     if err == "cpu-cap":
         r, err = _guarded(f, mult * cap)
+    if err == "MemoryError":
+        import gc
+        r = None
+        gc.collect()
+        old = resource.getrlimit(resource.RLIMIT_AS)
+        big = 4 * MEM_CAP if old[1] == resource.RLIM_INFINITY else min(4 * MEM_CAP, old[1])
+        try:
+            resource.setrlimit(resource.RLIMIT_AS, (big, old[1]))
+        except (ValueError, OSError):
+            pass
+        try:
+            r2, err2 = _guarded(f, mult * cap)
+        finally:
+            try:
+                resource.setrlimit(resource.RLIMIT_AS, old)
+            except (ValueError, OSError):
+                pass
+        del r2
+        gc.collect()
+        return None, ("MemoryError" if err2 == "MemoryError" else NOT_JUDGED)
     return r, err
+
+
+def _judged(vs):
+    """Drop the violations whose signature carries NOT_JUDGED; return (kept, number dropped)."""
+    kept = [v for v in vs if NOT_JUDGED not in v["sig"]]
+    return kept, len(vs) - len(kept)
 
 
 def cap_for(data):
@@ -408,6 +442,9 @@ def history_shard(names, fresh_digest):
     else:
         vs, outcome = check_history(names, fresh_digest)
         _bump(res["outcomes"], "history:" + outcome)
+    vs, dropped = _judged(vs)
+    if dropped:
+        _bump(res["outcomes"], "not_judged_memory_cap", dropped)
     for v in vs:
         res["per_sig"][v["sig"]] = 1
         res["vs"].append(v)
@@ -624,7 +661,7 @@ def check_virt_window(ent, window, trim):
     back, err = _guarded_sure(lambda: e.virt.get(start, stop), cap)
     if err or back != new:
         k = next((q for q in range(min(len(back or b""), len(new))) if back[q] != new[q]), None) if not err else None
-        vs.append(violation("virt-window:readback-differs:%s" % skel, what0 + ": e.virt.get of the same range %s"
+        vs.append(violation("virt-window:readback-%s:%s" % (err or "differs", skel), what0 + ": e.virt.get of the same range %s"
                             % ("ends with " + err if err else "differs from what was written, first at +%r" % k), case))
     if vs:
         return vs, "violation"      # what follows would only restate the same wrong contents
@@ -646,7 +683,7 @@ def check_virt_window(ent, window, trim):
     else:
         rb, err = _guarded_sure(lambda: got.virt.get(start, stop), cap)
         if err or rb != new:
-            vs.append(violation("virt-window:reparse-readback-differs:%s" % skel, what0 + ": after serialise + re-parse, virt.get of the range "
+            vs.append(violation("virt-window:reparse-readback-%s:%s" % (err or "differs", skel), what0 + ": after serialise + re-parse, virt.get of the range "
                                 "does not give the written bytes", case))
         want, werr = _guarded_sure(lambda: view(ELF(exp)), cap)
         gv, gerr = _guarded_sure(lambda: view(got), cap)
@@ -666,6 +703,8 @@ def virtwin_stage(ent, res, add):
             except Exception as ex:
                 vs, outcome = [_caught("virt-window", ent, {"k": "virtwin", "file": ent["name"], "sha256": ent["sha256"],
                                                            "window": list(w), "trim": trim}, ex)], "violation"
+            if outcome == "violation" and not _judged(vs)[0]:
+                outcome = "not-judged"
             if outcome == "window-too-small":
                 continue
             res["n"] += 1
@@ -841,6 +880,9 @@ def _shard_inner(args):
     res = {"n": 0, "nt": 0, "vs": [], "outcomes": {}, "sample": None, "stats": None, "per_sig": {}, "digest": None}
 
     def add(vs):
+        vs, dropped = _judged(vs)
+        if dropped:
+            _bump(res["outcomes"], "not_judged_memory_cap", dropped)
         for v in vs:
             c = res["per_sig"].get(v["sig"], 0)
             res["per_sig"][v["sig"]] = c + 1
@@ -856,7 +898,7 @@ def _shard_inner(args):
         res["n"] = 1
         res["nt"] = 1
         res["stats"] = st
-        _bump(res["outcomes"], "identity:" + ("violation" if vs else "ok"))
+        _bump(res["outcomes"], "identity:" + ("violation" if _judged(vs)[0] else "ok"))
         add(vs)
     elif kind == "virtwin":
         virtwin_stage(ent, res, add)
@@ -877,6 +919,8 @@ def _shard_inner(args):
                         except Exception as ex:
                             vs, outcome = [_caught("edit", ent, {"k": "edit", "file": ent["name"], "sha256": ent["sha256"], "section": i,
                                                                  "pos": pos, "xor": xor, "path": path}, ex)], "violation"
+                        if outcome == "violation" and not _judged(vs)[0]:
+                            outcome = "not-judged"
                         if outcome in ("same-as-first", "virt-not-applicable", "empty"):
                             continue
                         res["n"] += 1
@@ -896,6 +940,8 @@ def _shard_inner(args):
                 except Exception as ex:
                     vs, outcome = [_caught("deviation", ent, {"k": "deviation", "file": ent["name"], "sha256": ent["sha256"], "label": label,
                                                               "fcls": fcls, "off": off, "sz": sz, "delta": delta}, ex)], "violation"
+                if outcome == "violation" and not _judged(vs)[0]:
+                    outcome = "not-judged"
                 res["n"] += 1
                 if outcome.startswith("accepted") or outcome == "violation":
                     res["nt"] += 1
@@ -1028,6 +1074,10 @@ def run(ctx):
 
 
 def replay(case):
+    return _judged(_replay(case))[0]
+
+
+def _replay(case):
     _preimport()
     k = case["k"]
     if k == "history":
